@@ -160,6 +160,9 @@ func checkC17(p *Prog, r *Report) {
 	emptyCont := &contInfo{frames: map[*ssa.Function]bool{}, contained: map[*ssa.Function]bool{}, badFrames: map[*ssa.Function]string{}}
 	ruleEXP(p, r, fs, emptyCont)
 	ruleBND(p, r, fs, nil, entry, "STRTOTAL", false)
+	if r.Tier == "thorough" {
+		bceCrossRef(p, r, fs)
+	}
 	ruleTA(p, r, fs, emptyCont)
 	r.Floor("STRTOTAL", 20)
 
